@@ -238,7 +238,7 @@ def drop_trace(ex, body):
                     "trace block with else branch in %s" % ex.where())
             ex.dropped.append(re.sub(r'\s+', ' ', body[i:after]))
             # block must not contain foreign side effects
-            for st in inner.split(';'):
+            for st in re.sub(r'"(?:[^"\\]|\\.)*"', '""', inner).split(';'):
                 st = st.strip()
                 if not st:
                     continue
@@ -452,5 +452,40 @@ def range_for_by_ref(elem_type, min_count=0):
             raise ExtractionBroken("range-for-by-ref fired %d times (expected >= %d) in %s"
                                    % (n, min_count, ex.where()))
         ex.rules_fired.append(('range-for-by-reference', n))
+        return body
+    return rule
+
+
+def ref_param(name, min_count=1):
+    """A C++ reference parameter `T& name` becomes the pointer parameter
+    `name_p`; every use of the name as a whole identifier (not a member name
+    after . or ->) is replaced by (*name_p)."""
+    return Rule('reference parameter %s -> (*%s_p)' % (name, name),
+                r'(?<![\.>\w])%s\b(?!\s*\()' % re.escape(name), '(*%s_p)' % name, min_count)
+
+
+def method_call(obj_regex, method, build, name=None, min_count=0):
+    """Rewrite `<obj>.method(args...)` with balanced-parenthesis argument
+    parsing.  build(obj_text, [args]) -> replacement text."""
+    rx = re.compile(r'(%s)\.%s\(' % (obj_regex, re.escape(method)))
+
+    def rule(ex, body):
+        n = 0
+        pos = 0
+        while True:
+            m = rx.search(body, pos)
+            if not m:
+                break
+            op = m.end() - 1
+            cp = match_close(body, op, '(', ')')
+            args = [a.strip() for a in split_top(body[op + 1:cp])] if body[op + 1:cp].strip() else []
+            new = build(m.group(1), args)
+            body = body[:m.start()] + new + body[cp + 1:]
+            pos = m.start() + len(new)
+            n += 1
+        if n < min_count:
+            raise ExtractionBroken("rule '%s' fired %d times (expected >= %d) in %s"
+                                   % (name or method, n, min_count, ex.where()))
+        ex.rules_fired.append((name or ('.%s()' % method), n))
         return body
     return rule
